@@ -847,7 +847,9 @@ def do_indent(
         indention = escape(indention)
         newline = Markup(newline)
 
-    s += newline  # this quirk is necessary for splitlines method
+    # this quirk is necessary for splitlines method; not ``+=``, which would
+    # extend a list or deque passed by mistake in place before failing
+    s = s + newline
 
     if blank:
         rv = (newline + indention).join(s.splitlines())
